@@ -98,6 +98,8 @@ def check(run, replay, prop):
         variants = [("plain", "")]
         if thorough or prop in ("C01",):
             variants += [("branchable", ""), ("indexed", "")]
+        if thorough or prop in ("C04", "C02"):
+            variants += [("wide", "")]   # a document type with more than twenty fields
     viol, tot = [], dict(behaviours=0, steps=0, comparisons=0, cid_reads=0, deliveries=0, redeliveries=0, async_behaviours=0, subscription_behaviours=0, subscription_results=0)
     samples = []
     herrs = []
